@@ -391,6 +391,15 @@ def r11_table_entry_always_has_an_owner(ctx):
         R.check(ok, "C06.R11", "accept:entry-and-guard-together", "the table entry is created together with the guard that removes it", "accept() inserts the subscription into the table and can then still fail or be suspended before the SubscriptionGuard exists (an error return / await lies between them): the entry is left without an owner, so unsubscribe answers true for a subscription that was never accepted and the entry is never removed", where(c))
 
 
+
+def r12_ws_connections_always_get_the_subscription_service(ctx):
+    """the excess subscribe is refused with -32006 and unsubscribe answers false for unknown ids whatever the cap is (0
+    included): every WebSocket connection's service is CallsAndSubscriptions{bounded_subscriptions: new(cap)} - a
+    cap-dependent OnlyCalls configuration answers both with -32603 instead (= C10.R2's shape check)"""
+    from . import c10
+    c10.r2_service_handle(ctx)
+
+
 def rcfg_config_verbatim(ctx):
     """the configured `max_subscriptions_per_connection` reaches the ServerConfig unchanged (setter stores its argument, build()/Clone copy it)"""
     from .common import config_field_integrity
@@ -411,7 +420,7 @@ def rgen_generated_registrations(ctx):
     return c17.w_rules(ctx)
 
 
-LIB_RULES = [r1_permit_before_handler, r2_permit_flow, r3_unsubscribe_answer, r4_release_on_last_drop, r5_unsubscribe_needs_no_permit, r6_cap_provenance, r7_table_writers, r8_no_relock, r9_connection_ids_are_fresh, r10_ids_spelled_alike, r11_table_entry_always_has_an_owner, rcfg_config_verbatim, rids_wire_ids_derive_both]
+LIB_RULES = [r1_permit_before_handler, r2_permit_flow, r3_unsubscribe_answer, r4_release_on_last_drop, r5_unsubscribe_needs_no_permit, r6_cap_provenance, r7_table_writers, r8_no_relock, r9_connection_ids_are_fresh, r10_ids_spelled_alike, r11_table_entry_always_has_an_owner, r12_ws_connections_always_get_the_subscription_service, rcfg_config_verbatim, rids_wire_ids_derive_both]
 CONFIGS_QUICK = ["libs-all", "corpus"]
 CONFIGS_THOROUGH = ["libs-all", "facade-full", "corpus"]
 
